@@ -463,6 +463,10 @@ class Filtered:
         self.fn, self.seq = fn, seq
 
 
+class IndexedSeq:
+    """marker: a contract-supplied sequence with length() and item(i); a `for` over it is a cut point"""
+
+
 class RangeSeq:
     """range(lo, hi) with symbolic bounds (step 1)"""
 
@@ -944,7 +948,7 @@ class VC:
         self.Break = _Break
 
     def is_concrete(self, it):
-        if isinstance(it, (SymDict, SymList, ChildList, ChildIter, Enum, Rev, ListOf, Filtered, Mapped, RangeSeq, NodeBase)):
+        if isinstance(it, (SymDict, SymList, ChildList, ChildIter, Enum, Rev, ListOf, Filtered, Mapped, RangeSeq, NodeBase, IndexedSeq)):
             return False
         if isinstance(it, Log) and it.forgotten:
             return False
@@ -1020,7 +1024,7 @@ class VC:
             flt, s = s.fn, s.seq
         if isinstance(s, (self.space.Connection, ChildIter)):
             s = ChildList(s if isinstance(s, NodeBase) else s.node, self.space)
-        if isinstance(s, (ChildList, SymList, Mapped, RangeSeq)):
+        if isinstance(s, (ChildList, SymList, Mapped, RangeSeq, IndexedSeq)):
             return ("indexed", s, enum, rev, flt)
         if isinstance(s, SymDict):
             if enum or rev:
@@ -1059,8 +1063,8 @@ class VC:
             return c.fresh_int(name)
         if isinstance(v, float):
             return c.fresh_real(name)
-        if isinstance(v, (SymDict, SymList, Log)):
-            return v            # havocked in place
+        if isinstance(v, (SymDict, SymList, Log)) or (hasattr(v, "havoc") and hasattr(v, "snapshot")):
+            return v            # a state object: havocked in place (loop_havoc)
         if isinstance(v, str):
             return c.placeholder(f"str:{name}:{next(c.fresh)}")
         if v is None or isinstance(v, NodeBase) or v is _UNBOUND:
